@@ -6,6 +6,7 @@ import Driver.Ops.Data
 import Driver.Ops.Disk
 import Driver.Ops.Edge
 import Driver.Ops.Envelope
+import Driver.Ops.Mx
 import Driver.Ops.Policy
 import Driver.Ops.Pool
 import Driver.Ops.Proxy
@@ -28,6 +29,7 @@ def dispatch (line : String) : String :=
   | "disk" :: rest => diskOp rest
   | "edge" :: rest => edgeOp rest
   | "envelope" :: rest => envelopeOp rest
+  | "mx" :: rest => mxOp rest
   | "policy" :: rest => policyOp rest
   | "pool" :: rest => poolOp rest
   | "proxy" :: rest => proxyOp rest
